@@ -200,7 +200,8 @@ namespace Jinns.Holds
 
 theorem c20Scan_of_functional (g : Nat → String) (tr : List Rec20)
     (seen : List (Nat × String × String)) (hseen : ∀ s ∈ seen, s.2.2 = g s.1)
-    (hframe : ∀ r ∈ tr, r.before = r.after) (hres : ∀ r ∈ tr, r.result = g r.call) :
+    (hframe : ∀ r ∈ tr, r.before = r.after) (hrej : ∀ r ∈ tr, r.rejected = false)
+    (hres : ∀ r ∈ tr, r.result = g r.call) :
     c20Scan seen tr = none := by
   induction tr generalizing seen with
   | nil => rfl
@@ -208,10 +209,12 @@ theorem c20Scan_of_functional (g : Nat → String) (tr : List Rec20)
     have hf : frameOk r = true := by simp [frameOk, hframe r List.mem_cons_self]
     have hrs_f : ∀ r' ∈ rs, r'.before = r'.after := fun r' h => hframe r' (List.mem_cons_of_mem _ h)
     have hrs_r : ∀ r' ∈ rs, r'.result = g r'.call := fun r' h => hres r' (List.mem_cons_of_mem _ h)
-    simp only [c20Scan, hf, Bool.not_true, Bool.false_eq_true, if_false]
+    have hrs_j : ∀ r' ∈ rs, r'.rejected = false := fun r' h => hrej r' (List.mem_cons_of_mem _ h)
+    have hj : r.rejected = false := hrej r List.mem_cons_self
+    simp only [c20Scan, hf, hj, Bool.not_true, Bool.false_eq_true, if_false]
     cases hfind : seen.find? (fun s => s.1 == r.call) with
     | none =>
-      apply ih _ _ hrs_f hrs_r
+      apply ih _ _ hrs_f hrs_j hrs_r
       intro s hs
       rcases List.mem_append.1 hs with hs | hs
       · exact hseen s hs
@@ -222,14 +225,15 @@ theorem c20Scan_of_functional (g : Nat → String) (tr : List Rec20)
       have : s.2.2 = r.result := by
         rw [hseen s hmem, hcall, hres r List.mem_cons_self]
       simp only [this, beq_self_eq_true, if_true]
-      exact ih seen hseen hrs_f hrs_r
+      exact ih seen hseen hrs_f hrs_j hrs_r
 
 /-- **Any history in which no call modifies its arguments and the returned value is a function of the
     call alone satisfies `Holds.C20`** (whatever the order, the repetitions and the execution modes). -/
 theorem holdsC20_of_functional (g : Nat → String) (tr : List Rec20)
-    (hframe : ∀ r ∈ tr, r.before = r.after) (hres : ∀ r ∈ tr, r.result = g r.call) :
+    (hframe : ∀ r ∈ tr, r.before = r.after) (hrej : ∀ r ∈ tr, r.rejected = false)
+    (hres : ∀ r ∈ tr, r.result = g r.call) :
     holdsC20 tr = none :=
-  c20Scan_of_functional g tr [] (by simp) hframe hres
+  c20Scan_of_functional g tr [] (by simp) hframe hrej hres
 
 end Jinns.Holds
 
@@ -247,7 +251,7 @@ def modelTrace {R : Type} (render : Params → String) (shw : Option R → Strin
       | none => (store, none)
       | some f => callOn f store cm.1.2
     { call := cm.1.1 * N + cm.1.2, mode := cm.2, before := store.map render, after := a.1.map render,
-      result := shw a.2 } :: modelTrace render shw fs N a.1 r
+      result := shw a.2, rejected := false } :: modelTrace render shw fs N a.1 r
 
 /-- **`Holds.C20` is true of the model**: for every family of evaluations with the frame property
     (in particular `evaluateSingle k s` and `evaluateSys S ns`, by the frame theorems), every store of
